@@ -62,7 +62,10 @@ def _finalizer(fn):
 
 
 def _called(fn):
-    return [c.func for c in _calls(fn) if isinstance(c.func, (ast.Name, ast.Attribute))]
+    out = [c.func for c in _calls(fn) if isinstance(c.func, (ast.Name, ast.Attribute))]
+    # a function handed to another call (`async_add_executor_job(read_file, path)`) is called by the host as well
+    out += [a for c in _calls(fn) for a in c.args if isinstance(a, (ast.Name, ast.Attribute))]
+    return out
 
 
 # role name (the position the function had when the rules were written) -> (function to start from, candidate callables in it)
@@ -78,6 +81,8 @@ ROLE_UNITS_BY_KIND = {
         ("trigger.py::TrigTime.init.user_task_create_factory.user_task_create", lambda d: isinstance(d, ast.AsyncFunctionDef)),
     "state.py::State.get.service_call_factory": ("state.py::State.get", lambda d: isinstance(d, ast.FunctionDef) and any(isinstance(x, ast.AsyncFunctionDef) for x in d.body)),
     "function.py::Function.get.service_call_factory": ("function.py::Function.get", lambda d: isinstance(d, ast.FunctionDef) and any(isinstance(x, ast.AsyncFunctionDef) for x in d.body)),
+    "global_ctx.py::GlobalContextMgr.load_file.read_file": ("global_ctx.py::GlobalContextMgr.load_file", lambda d: isinstance(d, ast.FunctionDef) and "open(" in ast.unparse(d)),
+    "__init__.py::load_scripts.glob_read_files": ("__init__.py::load_scripts", lambda d: isinstance(d, ast.FunctionDef) and "glob.glob" in ast.unparse(d)),
     "jupyter_kernel.py::Kernel.send.encode": ("jupyter_kernel.py::Kernel.send", lambda d: isinstance(d, ast.FunctionDef) and "json.dumps" in ast.unparse(d)),
     "jupyter_kernel.py::Kernel.receive.decode": ("jupyter_kernel.py::Kernel.receive", lambda d: isinstance(d, ast.FunctionDef) and "json.loads" in ast.unparse(d)),
 }
